@@ -625,6 +625,9 @@ func monC08(c *child.Ctx, replay json.RawMessage) {
 		t := timed[i%len(timed)]
 		mc := multiCase{Type: t}
 		ns, ng := r.Range(2, 5), r.Range(1, 3)
+		if i%5 == 3 {
+			ns, ng = r.Range(1, 3), r.Range(4, 9) // five and more signals from one satellite
+		}
 		seen := map[uint]bool{}
 		for len(mc.SigIDs) < ng {
 			id := mk(t).SigID
